@@ -4,7 +4,7 @@
    hold for modules whose weight is as long as their channel (Fuzzy, ART2-A);
    see known_findings.json for the others. *)
 From Coq Require Import List Bool Arith Reals Permutation.
-From ART Require Import Num NumR Vec Search Kernel BaseArt BaseArt_folds Fusion Fusion_proofs Fusion_skip Fusion_perm.
+From ART Require Import Num NumR Vec Search Kernel BaseArt BaseArt_folds Fusion Fusion_proofs Fusion_skip Fusion_perm Fusion_w.
 Import ListNotations.
 Open Scope nat_scope.
 
@@ -47,6 +47,14 @@ Theorem C10_activation_is_the_gamma_weighted_sum :
       (forall k Kp, nth_error (combine mods (pos dims wdims)) k = Some Kp -> nth_error ts k = own Ws x w Kp) /\
       t = wsumR (combine ts gammas).
 Proof. exact choice_is_weighted_sum. Qed.
+(* the fused weight is the concatenation of the channel weights - through the W attribute in both directions
+   (setter after getter, getter after setter; the setter cuts every fused weight at the module weight lengths) *)
+Theorem C10_W_setter_after_getter :
+  forall (A : Type) (cat : list (list A)), split_fused (map (@length A) cat) (fuse cat) = cat.
+Proof. exact @split_fuse. Qed.
+Theorem C10_W_getter_after_setter :
+  forall (A : Type) (wdims : list nat) (w : list A), fold_right plus 0%nat wdims = length w -> fuse (split_fused wdims w) = w.
+Proof. exact @fuse_split. Qed.
 Print Assumptions C10_activation_is_the_gamma_weighted_sum.
 (* permuting the channels together with their gamma values, widths and vigilances: the fused activation depends only
    on the multiset of (channel activation, gamma) pairs, the fused vigilance test only on the multiset of per-channel
